@@ -213,7 +213,8 @@ func main() {
 				for hi, hname := range sensitive {
 					for vi, hv := range variants(hname) {
 						// the full header-variant product only for the first two panic values, one variant otherwise
-						if v.name != "string" && v.name != "error" && (hi+vi+n)%7 != 0 {
+						// (the thorough tier enumerates the whole product)
+						if !run.Thorough() && v.name != "string" && v.name != "error" && (hi+vi+n)%7 != 0 {
 							continue
 						}
 						n++
@@ -524,7 +525,7 @@ func txnPanics(run *kit.Run) {
 	for _, managed := range []string{"Updates", "View"} {
 		for pi, prog := range programs {
 			for vi, v := range values {
-				if v.make == nil || (pi > len(base) && vi > 1) {
+				if v.make == nil || (pi > len(base) && vi > 1 && !run.Thorough()) {
 					continue // every value for the prefixes, two values for the larger families
 				}
 				id := fmt.Sprintf("txn|%s|%s|%s", managed, prog.name, v.name)
